@@ -16,8 +16,13 @@
    Spec/PatternSpec.v:
      sv_fb c        the object the visitor builds, as plain structural recursion
      sem c          the visitor's remaining side conditions: representable timestamps, no EXISTS, no
-                    [i][j], no AND over disjoint object types (listed findings / deliberate refusal)
-     aprint a       names and constants of an object print to single tokens
+                    [i][j], no AND over disjoint object types (listed findings / deliberate refusal),
+                    and every float `fshort`
+     fshort f       at most 15 significant digits, at most 300 integer and 300 fraction digits: the
+                    floats Python holds exactly.  The model keeps every digit of a float; beyond
+                    this bound float() rounds, the model is not a model of the library, and no
+                    theorem below says anything (sem and aprint both require fshort)
+     aprint a       names and constants of an object print to single tokens (floats fshort)
      well_grouped a, obs_level a   a parenthetical node wherever precedence requires one (syntactic)
      constructible a               the classes accept the object (ANDs have a common object type)
      vexpr a        the shape of the objects the visitor produces                                   *)
@@ -47,19 +52,28 @@ Print Assumptions visit_is_structural.
    object the visitor yields are exactly the yield of a well-formed parse tree
    that the visitor maps back to the same object (so, the grammar being
    unambiguous, parsing the printed text gives the same object and printing
-   it again the same text) *)
+   it again the same text); that tree is again within `sem` and has the
+   meaning of the tree the object came from.
+   NOT modelled: that the lexer cuts the characters of str(a) into exactly the
+   tokens `print a` (maximal munch, the spaces str() writes); only string
+   literals are proved at character level (string_escape_roundtrip).  The
+   correspondence run compares the real lexer's tokens of str(a) with `print a`. *)
 Theorem print_fixpoint : forall (c : pattern) (a : aexpr),
   wf c = true -> sem c = true -> visit repaired c = Ok a ->
-  exists c', unvisit repaired a = Some c' /\ wf c' = true /\ yield c' = print repaired a /\ visit repaired c' = Ok a.
+  exists c', unvisit repaired a = Some c' /\ wf c' = true /\ sem c' = true /\ yield c' = print repaired a /\
+             visit repaired c' = Ok a /\ meaning_cst c' = meaning_cst c.
 Proof. exact PatternFixpoint.print_fixpoint_lemma. Qed.
 Print Assumptions print_fixpoint.
 
 (* objects assembled from the public classes, grouping expressed with the
    parenthetical node: the printed tokens are the yield of a well-formed parse
-   tree, and the visitor reads that tree back to an object with the same meaning *)
+   tree within `sem`, and the visitor reads that tree back to an object with the
+   same MEANING -- not the same structure: a left-nested chain of one operator,
+   And(And(x, y), z), prints without parentheses and reads back as the n-ary
+   And(x, y, z); meaning_ast reads n-ary chains the way the text does *)
 Theorem programmatic_roundtrip : forall a : aexpr,
   aprint a = true -> well_grouped a = true -> obs_level a = true -> constructible a = true ->
-  exists c, unvisit repaired a = Some c /\ wf c = true /\ yield c = print repaired a /\
+  exists c, unvisit repaired a = Some c /\ wf c = true /\ sem c = true /\ yield c = print repaired a /\
   exists a', visit repaired c = Ok a' /\ meaning_ast repaired a' = meaning_ast repaired a.
 Proof. exact PatternFixpoint.programmatic_roundtrip_lemma. Qed.
 Print Assumptions programmatic_roundtrip.
@@ -97,6 +111,18 @@ Definition ex_pattern : pattern :=
   OFb (OFbBase (OOrBase (OAndBase ex_o1)))
       (OOrBase (OAndBase (OCompound (OFbBase (OOr (OOrBase (OAndBase ex_o2)) (OAndBase ex_o3)))))).
 Example ex_admissible : wf ex_pattern = true /\ sem ex_pattern = true.
+Proof. vm_compute. repeat split. Qed.
+(* the float bound: 15 significant digits are inside sem / aprint, 16 are not
+   (float('0.1234567890123456') still prints back, float('0.12345678901234567')
+   does not: the bound is the safe one, DBL_DIG), magnitude does not count *)
+Definition ex_float (s : string) : pattern :=
+  OFbBase (OOrBase (OAndBase (ex_obs (ex_single (PTEqual (ObjPath (kt KIdent "a") (kt KIdent "b") None) false (kt KEQ "=")
+                                                         (kt KFloatPos s)))))).
+Example ex_float_bound :
+  wf (ex_float "0.123456789012345") = true /\ sem (ex_float "0.123456789012345") = true /\
+  wf (ex_float "999999999999999000000.0") = true /\ sem (ex_float "999999999999999000000.0") = true /\
+  wf (ex_float "0.1234567890123456") = true /\ sem (ex_float "0.1234567890123456") = false /\
+  aprint (ECmp KlEq (APath (u "a") [ABasic (u "b")]) (CFloat (FVal false [] [49;50;51;52;53;54;55;56;57;48;49;50;51;52;53;54]%N)) false) = false.
 Proof. vm_compute. repeat split. Qed.
 Example ex_programmatic :
   let a := ECompound OpAnd
